@@ -143,7 +143,7 @@ def run_cli(src, bits, S, unchecked, lint, expect_lines):
         return None
 
 
-def check_input(stats, src, bits, S, unchecked, lint, cli_roll):
+def check_input(stats, src, bits, S, unchecked, lint, cli_roll, allow_cli=True):
     if '\r' in src or any(0xD800 <= ord(c) <= 0xDFFF for c in src):
         raise Discard('outside the input domain (CR / surrogate)')
     if nesting(src) > 30:
@@ -192,7 +192,7 @@ def check_input(stats, src, bits, S, unchecked, lint, cli_roll):
     if stage == 'CodeGenError':
         bulk = any(k in str(val) for k in ('Level is empty', 'tack size too large', 'ord size must'))
         want_cli = want_cli or not bulk or roll < 20
-    if want_cli:
+    if want_cli and allow_cli:
         stats.cls('cli_runs')
         stats.cls('cli_for_' + stage)
         try:
@@ -303,7 +303,7 @@ ENTRY_VARIANTS = ['empty @is_you(%s)', 'int @is_you(%s)', 'empty is_you(%s)', 'e
 def shards(tier):
     return [('text', 0), ('ascii', 0), ('ascii', 1), ('soup', 0), ('soup', 1), ('mut_corpus', 0), ('mut_corpus', 1), ('mut_corpus', 2),
             ('mut_gen', 0), ('mut_gen', 1), ('mut_gen', 2), ('programs', 0), ('programs', 1), ('illformed', 0), ('illformed', 1), ('options', 0),
-            ('nesting', 0)]
+            ('nesting', 0)] + ([('atheris', k) for k in range(6)] if tier == 'thorough' else [])
 
 
 def opt_strategy():
@@ -326,6 +326,19 @@ def run_shard(desc, seed, tier):
             stats.sample({'kind': kind, 'text': src[:600], 'opts': [bits, S, unchecked, lint]})
         return check_input(stats, src, bits, S, unchecked, lint, roll)
 
+    if kind == 'atheris':
+        # coverage-guided byte-level campaign (fuzz/target.py c10); even k: empty corpus, odd k: examples/*.hid + small programs
+        from harness.fuzz import campaign
+
+        def recheck(text):
+            try:
+                return check_input(Stats(), text, 16, 500, False, False, 50, allow_cli=False)
+            except Discard:
+                return None
+        seeds = [] if k % 2 == 0 else [t for t in corpus() if len(t.encode()) <= 300] + [g + ' empty @is_you() { ' + b + ' }' for g, b in ILL_FORMED]
+        for sig, msg, text in campaign('c10', sd, 150000, seeds, stats, recheck):
+            stats.violation({'kind': 'input', 'text': text, 'opts': [16, 500, False, False, 50], 'message': msg, 'signature': sig + ':atheris'})
+        return stats
     if kind == 'text':
         strat = st.tuples(st.text(st.characters(blacklist_categories=('Cs',), blacklist_characters='\r'), max_size=80), opt_strategy())
         search(strat, chk, seed=sd, max_examples=1500 * scale, stats=stats, to_case=to_case)
